@@ -17,11 +17,13 @@ package proxymux
 //	C<c>@<x>=<chunks>  the open base listener of that address returns conn c; B<c> its client sends
 //	E@<x>              the open base listener's Accept fails
 //
-// Finalisation: close every sub-listener, run to quiescence and CHECK RELEASE (every base
-// listener closed, the manager's map empty), then hang up silent clients and fail what still
-// accepts. Oracles (model-free): at most one open base listener per canonical address at every
-// quiescent point; a registration is refused iff a live sub-listener of that kind exists on
-// that address; release as above; and per connection the same as for `mux` histories.
+// Finalisation: close every sub-listener and run to quiescence; CHECK RELEASE (every base
+// listener closed, the manager's map empty) at once when the history has no late registration,
+// and in every history after one more accepted connection; then hang up silent clients and
+// fail what still accepts. Oracles (model-free): at most one open base listener per canonical
+// address at every quiescent point; a registration is refused iff a live sub-listener of that
+// kind exists on that address; release as above; and per connection the same as for `mux`
+// histories (a connection arriving while a release is overdue finds no handler: closed).
 
 import (
 	"errors"
@@ -268,7 +270,10 @@ func c18RunMgrHistory(op string) (out string, oracle []string) {
 			return "bad-op", nil
 		}
 	}
-	// finalisation 1: every sub-listener closed → every base listener must be released
+	// finalisation 1: every sub-listener closed. mainLoop watches the close channels it read at
+	// its last loop head, so a base listener whose sub-listeners were all registered after that
+	// (a LATE registration with nothing waking mainLoop since) is released only at the next
+	// wake-up: without a late registration every base listener must be closed now …
 	synctest.Wait()
 	for _, s := range subs {
 		s.l.Close()
@@ -276,26 +281,68 @@ func c18RunMgrHistory(op string) (out string, oracle []string) {
 	}
 	synctest.Wait()
 	checkOnePerKey("at the end")
+	lateOp := strings.Contains(op, " lL")
+	baseLetter := func(b *c18MgrBase) string {
+		if b.key == "127.0.0.1:1081" {
+			return "b"
+		}
+		return "a"
+	}
+	mapKeys := func() []string {
+		globalMuxManager.lock.Lock()
+		defer globalMuxManager.lock.Unlock()
+		var left []string
+		for k := range globalMuxManager.listeners {
+			left = append(left, k)
+		}
+		sort.Strings(left)
+		return left
+	}
 	var bstat []string
 	for _, b := range bases {
 		st := "c"
 		if !b.isClosed() {
 			st = "o"
-			oracle = append(oracle, fmt.Sprintf("release: the base listener of %s is still open although every sub-listener on it is closed", b.key))
+			if !lateOp {
+				oracle = append(oracle, fmt.Sprintf("release: the base listener of %s is still open although every sub-listener on it is closed (no late registration in this history)", b.key))
+			}
 		}
-		bstat = append(bstat, string(rune('a'+strings.Index("127.0.0.1:1080 127.0.0.1:1081", b.key)/15))+":"+st)
+		bstat = append(bstat, baseLetter(b)+":"+st)
 	}
-	globalMuxManager.lock.Lock()
-	var left []string
-	for k := range globalMuxManager.listeners {
-		left = append(left, k)
+	if !lateOp {
+		for _, k := range mapKeys() {
+			oracle = append(oracle, fmt.Sprintf("release: the manager still maps %s to a mux although every sub-listener on it is closed (no late registration in this history)", k))
+		}
 	}
-	globalMuxManager.lock.Unlock()
-	sort.Strings(left)
-	for _, k := range left {
-		oracle = append(oracle, fmt.Sprintf("release: the manager still maps %s to a mux although every sub-listener on it is closed", k))
+	// … and in every history one more accepted connection (whose client hangs up at once) wakes
+	// mainLoop: after it every base listener is closed and the map is empty; the connection
+	// itself has no handler left and must be closed by the mux
+	for i, b := range bases {
+		if b.isClosed() {
+			continue
+		}
+		c := &c18FakeConn{id: 900 + i, release: make(chan struct{})}
+		if b.offer(c18AcceptRes{conn: c}) {
+			conns[c.id] = c
+			connAlias[c.id] = baseLetter(b)[0]
+			c.setHanded(true)
+			c.send(false)
+		}
 	}
-	// finalisation 2: let every goroutine end
+	synctest.Wait()
+	var astat []string
+	for _, b := range bases {
+		st := "c"
+		if !b.isClosed() {
+			st = "o"
+			oracle = append(oracle, fmt.Sprintf("release: the base listener of %s is still open although every sub-listener on it is closed and a further connection has been accepted", b.key))
+		}
+		astat = append(astat, baseLetter(b)+":"+st)
+	}
+	for _, k := range mapKeys() {
+		oracle = append(oracle, fmt.Sprintf("release: the manager still maps %s to a mux although every sub-listener on it is closed and a further connection has been accepted", k))
+	}
+	// finalisation 3: let every goroutine end
 	ids := make([]int, 0, len(conns))
 	for id := range conns {
 		ids = append(ids, id)
@@ -370,7 +417,7 @@ func c18RunMgrHistory(op string) (out string, oracle []string) {
 			oracle = append(oracle, fmt.Sprintf("conn %d was handed out by a base listener and is neither delivered to a sub-listener nor closed", id))
 		}
 	}
-	parts = append(parts, "bases="+c18Join(bstat))
+	parts = append(parts, "bases="+c18Join(bstat), "after="+c18Join(astat))
 	return strings.Join(parts, " "), oracle
 }
 
